@@ -554,18 +554,64 @@ impl Runner {
     let exe = std::env::current_exe()?;
     let sc_path = self.dir.path().join("crash-scenario.json");
     std::fs::write(&sc_path, serde_json::to_string(&self.sc)?)?;
-    let status = std::process::Command::new(exe)
+    let mut cmd = std::process::Command::new(exe);
+    cmd
       .arg("crash-child")
       .arg(&sc_path)
       .arg(self.node.handle.url())
       .arg(self.node.handle.cookie_file())
       .arg(self.dir.path())
-      .env("ORD_VERIF_CRASH", format!("{point}:{occ}"))
       .stdout(std::process::Stdio::piped())
-      .stderr(std::process::Stdio::piped())
-      .output()?;
-    let stdout = String::from_utf8_lossy(&status.stdout).to_string();
-    let crashed = !status.status.success();
+      .stderr(std::process::Stdio::piped());
+    let (stdout, stderr_text, crashed) = if point == "kill" {
+      // no crash point: the child is killed (SIGKILL) wherever it is -- possibly inside a redb commit --
+      // occ % 1000 milliseconds after it reported its (occ / 1000)-th commit
+      use std::io::{BufRead, Read};
+      let mut child = cmd.spawn()?;
+      let out = child.stdout.take().unwrap();
+      let mut err = child.stderr.take().unwrap();
+      let (tx, rx) = mpsc::channel::<String>();
+      let reader = std::thread::spawn(move || {
+        let mut all = String::new();
+        for line in std::io::BufReader::new(out).lines().map_while(|l| l.ok()) {
+          let _ = tx.send(line.clone());
+          all.push_str(&line);
+          all.push('\n');
+        }
+        all
+      });
+      let err_reader = std::thread::spawn(move || {
+        let mut s = String::new();
+        let _ = err.read_to_string(&mut s);
+        s
+      });
+      let want = occ / 1000;
+      let mut seen = 0;
+      let t0 = std::time::Instant::now();
+      while seen < want && t0.elapsed() < Duration::from_secs(60) {
+        match rx.recv_timeout(Duration::from_millis(50)) {
+          Ok(line) => {
+            if line.contains("\"CommitMain\"") {
+              seen += 1;
+            }
+          }
+          Err(mpsc::RecvTimeoutError::Timeout) => {
+            if child.try_wait()?.is_some() {
+              break;
+            }
+          }
+          Err(_) => break,
+        }
+      }
+      std::thread::sleep(Duration::from_millis(occ % 1000));
+      let finished = child.try_wait()?.map(|s| s.success()).unwrap_or(false);
+      let _ = child.kill();
+      let _ = child.wait();
+      (reader.join().unwrap_or_default(), err_reader.join().unwrap_or_default(), !finished)
+    } else {
+      let status = cmd.env("ORD_VERIF_CRASH", format!("{point}:{occ}")).output()?;
+      (String::from_utf8_lossy(&status.stdout).to_string(), String::from_utf8_lossy(&status.stderr).to_string(), !status.status.success())
+    };
     // the child prints the protocol events it saw as ndjson on stdout before the abort;
     // `durable` is the sequence of block counts made durable by its commits and rollbacks
     let mut durable = Vec::new();
@@ -592,7 +638,7 @@ impl Runner {
     let indexed = self.indexed_ids()?;
     self.emit(json!({"e": "Crash", "point": point, "occ": occ, "crashed": crashed,
       "count": count, "indexed": indexed, "chain": self.chain_ids(), "durable": durable, "before": before,
-      "stderr": String::from_utf8_lossy(&status.stderr).lines().last().unwrap_or("").to_string()}));
+      "stderr": stderr_text.lines().last().unwrap_or("").to_string()}));
     // the content after reopening, and a from-scratch index of the same prefix
     self.state()?;
     self.fresh(Some(count))?;
